@@ -109,7 +109,7 @@ Qed.
 
 Lemma sums_ok_stake s v d a fz bal h m pb ff : sums_ok s -> sums_ok (fst (do_stake s v d a fz bal h m pb ff)).
 Proof.
-  intros Hs. unfold do_stake.
+  intros Hs. unfold do_stake. destruct (negb (validate_stake a bal)); [exact Hs|]. destruct (negb (amount_ok a)); [exact Hs|].
   destruct fz; [exact Hs|]. destruct (stake_update s v d h m); [|exact Hs].
   destruct (bal - debit_of a <? 0); [exact Hs|]. destruct pb; [exact Hs|]. destruct ff; [exact Hs|].
   simpl. eapply (sums_ok_delta s _ v d a); try reflexivity. exact Hs.
@@ -117,7 +117,7 @@ Qed.
 
 Lemma sums_ok_unstake s v d a fz ro h m pb ff : sums_ok s -> sums_ok (fst (do_unstake s v d a fz ro h m pb ff)).
 Proof.
-  intros Hs. unfold do_unstake.
+  intros Hs. unfold do_unstake. destruct (negb (validate_unstake s v d a)); [exact Hs|]. destruct (negb (amount_ok a)); [exact Hs|].
   destruct fz; [exact Hs|]. destruct ro; [exact Hs|].
   destruct (minus3_cases s v d a) as [E|[[s1 E]|[[s1 E]|[s3 [E (E1 & E2 & E3 & _)]]]]]; rewrite E; try exact Hs.
   destruct (vrecs s !! v); [|exact Hs]. destruct pb; [exact Hs|]. destruct ff; [exact Hs|].
@@ -126,7 +126,7 @@ Qed.
 
 Lemma sums_ok_withdraw s v d a fz ff : sums_ok s -> sums_ok (fst (do_withdraw s v d a fz ff)).
 Proof.
-  intros Hs. unfold do_withdraw.
+  intros Hs. unfold do_withdraw. destruct (negb (validate_unstake s v d a)); [exact Hs|]. destruct (negb (amount_ok a)); [exact Hs|].
   destruct fz; [exact Hs|]. destruct (zget (dbnd s) d - a <? 0); [exact Hs|]. destruct ff; [exact Hs|].
   simpl. eapply sums_ok_ext; [| | |exact Hs]; reflexivity.
 Qed.
@@ -184,7 +184,10 @@ Theorem frozen_no_effect s v d a bal h m ro pb ff :
   step s (OStake v d a true bal h m pb ff) = (s, false) /\
   step s (OUnstake v d a true ro h m pb ff) = (s, false) /\
   step s (OWithdraw v d a true ff) = (s, false).
-Proof. repeat split. Qed.
+Proof.
+  simpl. unfold do_stake, do_unstake, do_withdraw.
+  destruct (negb (validate_stake a bal)), (negb (validate_unstake s v d a)), (negb (amount_ok a)); repeat split.
+Qed.
 
 (* ---------- C11_maturity (step level) ---------- *)
 (* a successful UNSTAKE at height h with maturity option m creates exactly one entry, at h + m,
@@ -193,26 +196,290 @@ Theorem unstake_entry s v d a ro h m pb ff s' :
   step s (OUnstake v d a false ro h m pb ff) = (s', true) ->
   mat s' = <[h + m := mat_at s (h + m) ++ [(d, a)]]> (mat s) /\ dbnd s' = dbnd s.
 Proof.
-  simpl. unfold do_unstake. destruct ro; [discriminate|].
+  simpl. unfold do_unstake. destruct (negb (validate_unstake s v d a)); [discriminate|]. destruct (negb (amount_ok a)); [discriminate|]. destruct ro; [discriminate|].
   destruct (minus3_cases s v d a) as [E|[[s1 E]|[[s1 E]|[s3 [E (_ & _ & _ & Eb & Em & _)]]]]]; rewrite E; try discriminate.
   destruct (vrecs s !! v); [|discriminate]. destruct pb; [discriminate|]. destruct ff; [discriminate|].
   intros Heq. inversion Heq; subst; clear Heq. simpl. unfold mat_at. simpl. rewrite Em, Eb. split; reflexivity.
 Qed.
 
-(* outside the end-block hook the withdrawable amount of nobody grows, for non-negative amounts *)
+(* outside the end-block hook the withdrawable amount of nobody grows (since fix 48c76fc without
+   any condition on the amounts: negative amounts are rejected by the handlers) *)
 Theorem withdrawable_not_growing_in_tx s o d' :
-  trig_negative o = false ->
   match o with OStake _ _ _ _ _ _ _ _ _ | OUnstake _ _ _ _ _ _ _ _ _ | OWithdraw _ _ _ _ _ | OBegin _ => True | _ => False end ->
   zget (dbnd (fst (step s o))) d' <= zget (dbnd s) d'.
 Proof.
-  intros Hn Hk. destruct o; try contradiction; simpl.
-  - unfold do_stake. destruct frozen; [simpl; lia|]. destruct (stake_update s v d h m); [|simpl; lia].
+  intros Hk. destruct o; try contradiction; simpl.
+  - unfold do_stake. destruct (negb (validate_stake a bal)); [simpl; lia|]. destruct (negb (amount_ok a)); [simpl; lia|].
+    destruct frozen; [simpl; lia|]. destruct (stake_update s v d h m); [|simpl; lia].
     destruct (bal - debit_of a <? 0); [simpl; lia|]. destruct purge_block; [simpl; lia|]. destruct fee_fail; simpl; lia.
-  - unfold do_unstake. destruct frozen; [simpl; lia|]. destruct req_open; [simpl; lia|].
+  - unfold do_unstake. destruct (negb (validate_unstake s v d a)); [simpl; lia|]. destruct (negb (amount_ok a)); [simpl; lia|].
+    destruct frozen; [simpl; lia|]. destruct req_open; [simpl; lia|].
     destruct (minus3_cases s v d a) as [E|[[s1 E]|[[s1 E]|[s3 [E (_ & _ & _ & Eb & _)]]]]]; rewrite E; try (simpl; lia).
     destruct (vrecs s !! v); [|simpl; lia]. destruct purge_block; [simpl; lia|]. destruct fee_fail; simpl; [lia|]. rewrite Eb. lia.
-  - unfold do_withdraw. destruct frozen; [simpl; lia|]. destruct (zget (dbnd s) d - a <? 0); [simpl; lia|].
-    destruct fee_fail; simpl; [lia|]. unfold trig_negative in Hn. simpl in Hn.
+  - unfold do_withdraw. destruct (negb (validate_unstake s v d a)); [simpl; lia|]. destruct (negb (amount_ok a)) eqn:Ea; [simpl; lia|].
+    destruct frozen; [simpl; lia|]. destruct (zget (dbnd s) d - a <? 0); [simpl; lia|].
+    destruct fee_fail; simpl; [lia|]. unfold amount_ok in Ea.
     rewrite zget_zadd. destruct (decide (d = d')) as [->|]; lia.
   - lia.
+Qed.
+
+(* amounts outside [0, 2^63) are rejected by all three handlers (fix 48c76fc) *)
+Theorem out_of_range_rejected s v d a fz bal h m ro pb ff :
+  amount_ok a = false ->
+  step s (OStake v d a fz bal h m pb ff) = (s, false) /\
+  step s (OUnstake v d a fz ro h m pb ff) = (s, false) /\
+  step s (OWithdraw v d a fz ff) = (s, false).
+Proof.
+  intros Ha. simpl. unfold do_stake, do_unstake, do_withdraw. rewrite Ha. simpl.
+  destruct (negb (validate_stake a bal)), (negb (validate_unstake s v d a)); repeat split.
+Qed.
+
+(* ---------- C11_withdraw_bounded : conservation + non-negativity, all histories ---------- *)
+Definition conserved (s : state) : Prop :=
+  forall d, zget (g_staked s) d - zget (g_pen s) d - zget (g_withdrawn s) d
+            = zget (deff s) d + zget (dbnd s) d + maturing s d.
+Definition nonneg (s : state) : Prop :=
+  (forall d, 0 <= zget (deff s) d) /\ (forall d, 0 <= zget (dbnd s) d) /\
+  (forall h l, mat s !! h = Some l -> Forall (fun e => 0 <= e.2) l).
+Definition base_ok (s : state) : Prop :=
+  forall d, zget (g_in s) d = zget (g_staked s) d * base /\ zget (g_out s) d = zget (g_withdrawn s) d * base.
+Definition inv (s : state) : Prop := conserved s /\ nonneg s /\ base_ok s.
+
+Lemma entries_of_app l d a d' :
+  entries_of (l ++ [(d, a)]) d' = entries_of l d' + (if Pos.eqb d d' then a else 0).
+Proof.
+  induction l as [|[ed ea] l IH]; simpl.
+  - destruct (Pos.eqb d d'); lia.
+  - rewrite IH. destruct (Pos.eqb ed d'), (Pos.eqb d d'); lia.
+Qed.
+
+Lemma entries_of_nonneg l d : Forall (fun e => 0 <= e.2) l -> 0 <= entries_of l d.
+Proof.
+  induction 1 as [|[ed ea] l He Hl IH]; simpl in *; [lia|]. destruct (Pos.eqb ed d); lia.
+Qed.
+
+Lemma maturing_insert (m : gmap Z (list (addr * Z))) k l d :
+  msum (fun (_ : Z) l => entries_of l d) (<[k := l]> m)
+  = msum (fun (_ : Z) l => entries_of l d) m + entries_of l d - entries_of (default [] (m !! k)) d.
+Proof. rewrite msum_insert. unfold wget. destruct (m !! k); simpl; lia. Qed.
+
+Lemma maturing_nonneg s d : nonneg s -> 0 <= maturing s d.
+Proof.
+  intros (_ & _ & Hm). unfold maturing. apply msum_nonneg. intros k l E. apply entries_of_nonneg. eapply Hm; exact E.
+Qed.
+
+Lemma credit_sum es b d : zget (foldr credit_entry b es) d = zget b d + entries_of es d.
+Proof.
+  induction es as [|[ed ea] es IH]; simpl; [lia|]. unfold credit_entry at 1. simpl. destruct (ea =? 0) eqn:E.
+  - apply Z.eqb_eq in E. rewrite IH. destruct (Pos.eqb ed d); lia.
+  - rewrite zget_zadd. destruct (decide (ed = d)) as [->|Hne].
+    + rewrite Pos.eqb_refl, IH. lia.
+    + destruct (Pos.eqb_spec ed d); [contradiction|]. rewrite IH. lia.
+Qed.
+
+Lemma wrap64_small a : amount_ok a = true -> wrap64 a = a.
+Proof.
+  unfold amount_ok, wrap64. intros Ha. apply andb_true_iff in Ha as [H1 H2].
+  assert (2 ^ 63 = 9223372036854775808) as E63 by reflexivity.
+  assert (2 ^ 64 = 18446744073709551616) as E64 by reflexivity.
+  rewrite E63 in *. rewrite E64. rewrite Z.mod_small by lia. lia.
+Qed.
+
+Lemma minus3_frame s v d a s1 n :
+  minus3 s v d a = (s1, n) ->
+  dbnd s1 = dbnd s /\ mat s1 = mat s /\ g_staked s1 = g_staked s /\ g_withdrawn s1 = g_withdrawn s /\
+  g_pen s1 = g_pen s /\ g_in s1 = g_in s /\ g_out s1 = g_out s /\
+  ((n <> 3%nat /\ deff s1 = deff s) \/ (n = 3%nat /\ deff s1 = zadd d (- a) (deff s) /\ 0 <= zget (deff s) d - a)).
+Proof.
+  unfold minus3.
+  destruct (zget (vtot s) v - a <? 0); [intros E; inversion E; subst; repeat split; left; split; [lia|reflexivity]|].
+  destruct (zget (eff s) (v, d) - a <? 0); [intros E; inversion E; subst; simpl; repeat split; left; split; [lia|reflexivity]|].
+  destruct (zget (deff s) d - a <? 0) eqn:E3; [intros E; inversion E; subst; simpl; repeat split; left; split; [lia|reflexivity]|].
+  intros E; inversion E; subst; simpl. repeat split. right. repeat split. lia.
+Qed.
+
+Lemma inv_empty : inv empty_state.
+Proof.
+  split; [|split].
+  - intros d. unfold maturing. simpl. rewrite msum_empty. reflexivity.
+  - split; [|split]; simpl.
+    + intros d. unfold zget. rewrite lookup_empty. simpl. lia.
+    + intros d. unfold zget. rewrite lookup_empty. simpl. lia.
+    + intros h l E. rewrite lookup_empty in E. discriminate.
+  - intros d. simpl. unfold zget. rewrite !lookup_empty. simpl. lia.
+Qed.
+
+(* framing: a state that differs only in fields the invariant does not read *)
+Lemma inv_frame s s' :
+  deff s' = deff s -> dbnd s' = dbnd s -> mat s' = mat s -> g_staked s' = g_staked s -> g_withdrawn s' = g_withdrawn s ->
+  g_pen s' = g_pen s -> g_in s' = g_in s -> g_out s' = g_out s -> inv s -> inv s'.
+Proof.
+  intros E1 E2 E3 E4 E5 E6 E7 E8 (HC & HN & HB). unfold inv, conserved, nonneg, base_ok, maturing in *.
+  rewrite E1, E2, E3, E4, E5, E6, E7, E8. repeat split; try apply HC; try apply HN; apply HB.
+Qed.
+
+Lemma inv_stake s v d a fz bal h m pb ff : inv s -> inv (fst (do_stake s v d a fz bal h m pb ff)).
+Proof.
+  intros Hs. unfold do_stake. destruct (negb (validate_stake a bal)); [exact Hs|]. destruct (amount_ok a) eqn:Ea; simpl; [|exact Hs].
+  destruct fz; [exact Hs|]. destruct (stake_update s v d h m); [|exact Hs].
+  destruct (bal - debit_of a <? 0); [exact Hs|]. destruct pb; [exact Hs|]. destruct ff; [exact Hs|].
+  destruct Hs as (HC & (Hd & Hb & Hm) & HB). simpl.
+  assert (0 <= a) by (unfold amount_ok in Ea; lia).
+  assert (debit_of a = a * base) as Edeb by (unfold debit_of; rewrite wrap64_small by exact Ea; reflexivity).
+  split; [|split].
+  - intros d'. unfold maturing. simpl. specialize (HC d'). unfold maturing in HC.
+    rewrite !zget_zadd. destruct (decide (d = d')) as [->|]; lia.
+  - split; [|split]; simpl; [|exact Hb|exact Hm].
+    intros d'. rewrite zget_zadd. specialize (Hd d'). destruct (decide (d = d')) as [->|]; lia.
+  - intros d'. simpl. rewrite !zget_zadd, Edeb. destruct (HB d') as [B1 B2]. destruct (decide (d = d')) as [->|]; split; lia.
+Qed.
+
+Lemma inv_unstake s v d a fz ro h m pb ff : inv s -> inv (fst (do_unstake s v d a fz ro h m pb ff)).
+Proof.
+  intros Hs. unfold do_unstake. destruct (negb (validate_unstake s v d a)); [exact Hs|]. destruct (amount_ok a) eqn:Ea; simpl; [|exact Hs].
+  destruct fz; [exact Hs|]. destruct ro; [exact Hs|].
+  destruct (minus3 s v d a) as [s1 n] eqn:E. destruct (minus3_frame _ _ _ _ _ _ E) as (Fb & Fm & F1 & F2 & F3 & F4 & F5 & Fd).
+  destruct n as [|[|[|[|n]]]]; try exact Hs.
+  destruct (vrecs s !! v); [|exact Hs]. destruct pb; [exact Hs|]. destruct ff; [exact Hs|].
+  destruct Fd as [[Hn _]|(_ & Fd & Hge)]; [contradiction|].
+  destruct Hs as (HC & (Hd & Hb & Hm) & HB). simpl.
+  assert (0 <= a) by (unfold amount_ok in Ea; lia).
+  split; [|split].
+  - intros d'. unfold maturing, mat_at. simpl. rewrite maturing_insert, entries_of_app.
+    rewrite Fm, Fd, Fb, F1, F2, F3. specialize (HC d'). unfold maturing in HC.
+    rewrite zget_zadd. destruct (decide (d = d')) as [->|Hne].
+    + rewrite Pos.eqb_refl. lia.
+    + destruct (Pos.eqb_spec d d'); [contradiction|]. lia.
+  - split; [|split]; simpl.
+    + intros d'. rewrite Fd, zget_zadd. specialize (Hd d'). destruct (decide (d = d')) as [->|]; lia.
+    + rewrite Fb. exact Hb.
+    + intros k l. unfold mat_at. simpl. rewrite Fm. destruct (decide (k = h + m)) as [->|Hne].
+      * rewrite lookup_insert. intros El. inversion El; subst. apply Forall_app. split.
+        -- destruct (mat s !! (h + m)) as [l0|] eqn:E0; simpl; [eapply Hm; exact E0|constructor].
+        -- constructor; [simpl; lia|constructor].
+      * rewrite lookup_insert_ne by (intros Heq; apply Hne; symmetry; exact Heq). apply Hm.
+  - intros d'. simpl. rewrite F1, F2, F4, F5. apply HB.
+Qed.
+
+Lemma inv_withdraw s v d a fz ff : inv s -> inv (fst (do_withdraw s v d a fz ff)).
+Proof.
+  intros Hs. unfold do_withdraw. destruct (negb (validate_unstake s v d a)); [exact Hs|]. destruct (amount_ok a) eqn:Ea; simpl; [|exact Hs].
+  destruct fz; [exact Hs|]. destruct (zget (dbnd s) d - a <? 0) eqn:Eb; [exact Hs|]. destruct ff; [exact Hs|].
+  destruct Hs as (HC & (Hd & Hb & Hm) & HB). simpl.
+  assert (debit_of a = a * base) as Edeb by (unfold debit_of; rewrite wrap64_small by exact Ea; reflexivity).
+  split; [|split].
+  - intros d'. unfold maturing. simpl. specialize (HC d'). unfold maturing in HC.
+    rewrite !zget_zadd. destruct (decide (d = d')) as [->|]; lia.
+  - split; [|split]; simpl; [exact Hd| |exact Hm].
+    intros d'. rewrite zget_zadd. specialize (Hb d'). destruct (decide (d = d')) as [->|]; lia.
+  - intros d'. simpl. rewrite !zget_zadd, Edeb. destruct (HB d') as [B1 B2]. destruct (decide (d = d')) as [->|]; split; lia.
+Qed.
+
+Lemma inv_mature s h : inv s -> inv (mature s h).
+Proof.
+  intros (HC & (Hd & Hb & Hm) & HB). unfold mature, mat_at.
+  assert (Forall (fun e => 0 <= e.2) (default [] (mat s !! h))) as Hes.
+  { destruct (mat s !! h) as [l|] eqn:E; simpl; [eapply Hm; exact E|constructor]. }
+  split; [|split].
+  - intros d'. unfold maturing. simpl. rewrite credit_sum. specialize (HC d'). unfold maturing in HC.
+    destruct (default [] (mat s !! h)) as [|e es] eqn:El.
+    + simpl. lia.
+    + rewrite maturing_insert, El. simpl (entries_of [] d'). lia.
+  - split; [|split]; simpl; [exact Hd| |].
+    + intros d'. rewrite credit_sum. specialize (Hb d'). pose proof (entries_of_nonneg _ d' Hes). lia.
+    + intros k l. destruct (default [] (mat s !! h)) as [|e es]; [apply Hm|].
+      destruct (decide (k = h)) as [->|Hne].
+      * rewrite lookup_insert. intros El; inversion El; subst. constructor.
+      * rewrite lookup_insert_ne by (intros Heq; apply Hne; symmetry; exact Heq). apply Hm.
+  - exact HB.
+Qed.
+
+Lemma inv_verdict s e : inv s -> inv (verdict s e).
+Proof.
+  destruct e as [[v pct] dec]. unfold verdict. intros Hs.
+  destruct (vprev s !! v) as [r|]; [|exact Hs].
+  set (p := penalty_amount (zget (vtot s) v) pct dec).
+  destruct (minus3 s v (vr_saddr r) p) as [s1 n] eqn:E.
+  destruct (minus3_frame _ _ _ _ _ _ E) as (Fb & Fm & F1 & F2 & F3 & F4 & F5 & Fd).
+  destruct Hs as (HC & (Hd & Hb & Hm) & HB).
+  destruct Fd as [[Hn Fd]|(-> & Fd & Hge)].
+  - assert ((match n with 3%nat => zadd (vr_saddr r) p (g_pen s1) | _ => g_pen s1 end) = g_pen s1) as Ep.
+    { destruct n as [|[|[|[|n]]]]; try reflexivity. contradiction. }
+    rewrite Ep. split; [|split].
+    + intros d'. unfold maturing. simpl. rewrite Fm, Fd, Fb, F1, F2, F3. apply HC.
+    + split; [|split]; simpl; [rewrite Fd; exact Hd|rewrite Fb; exact Hb|rewrite Fm; exact Hm].
+    + intros d'. simpl. rewrite F1, F2, F4, F5. apply HB.
+  - split; [|split].
+    + intros d'. unfold maturing. simpl. rewrite Fm, Fd, Fb, F1, F2, F3. specialize (HC d'). unfold maturing in HC.
+      rewrite !zget_zadd. destruct (decide (vr_saddr r = d')) as [<-|]; lia.
+    + split; [|split]; simpl; [|rewrite Fb; exact Hb|rewrite Fm; exact Hm].
+      intros d'. rewrite Fd, zget_zadd. specialize (Hd d'). destruct (decide (vr_saddr r = d')) as [<-|]; lia.
+    + intros d'. simpl. rewrite F1, F2, F4, F5. apply HB.
+Qed.
+
+Lemma inv_verdicts vs : forall s, inv s -> inv (fold_left verdict vs s).
+Proof. induction vs as [|e vs IH]; intros s Hs; simpl; [exact Hs|]. apply IH, inv_verdict, Hs. Qed.
+
+Definition gen_nonneg (o : op) : bool :=
+  match o with OGenStake _ _ a | OGenMature _ _ a => 0 <=? a | _ => true end.
+
+Lemma inv_step s o : gen_nonneg o = true -> inv s -> inv (fst (step s o)).
+Proof.
+  intros Hg Hs. destruct o; simpl.
+  - apply inv_stake, Hs.
+  - apply inv_unstake, Hs.
+  - apply inv_withdraw, Hs.
+  - eapply inv_frame; [..|exact Hs]; reflexivity.
+  - unfold do_end. destruct (h <=? 1).
+    + eapply inv_frame; [..|exact Hs]; reflexivity.
+    + eapply inv_frame; [reflexivity..|]. apply inv_verdicts, inv_mature.
+      eapply inv_frame; [..|exact Hs]; reflexivity.
+  - simpl in Hg. assert (0 <= a) by lia. unfold do_genstake.
+    destruct Hs as (HC & (Hd & Hb & Hm) & HB). split; [|split].
+    + intros d'. unfold maturing. simpl. specialize (HC d'). unfold maturing in HC.
+      rewrite !zget_zadd. destruct (decide (d = d')) as [->|]; lia.
+    + split; [|split]; simpl; [|exact Hb|exact Hm].
+      intros d'. rewrite zget_zadd. specialize (Hd d'). destruct (decide (d = d')) as [->|]; lia.
+    + intros d'. simpl. rewrite !zget_zadd. destruct (HB d') as [B1 B2]. destruct (decide (d = d')) as [->|]; split; lia.
+  - simpl in Hg. assert (0 <= a) by lia. unfold do_genmature.
+    destruct Hs as (HC & (Hd & Hb & Hm) & HB). split; [|split].
+    + intros d'. unfold maturing, mat_at. simpl. rewrite maturing_insert, entries_of_app.
+      specialize (HC d'). unfold maturing in HC. rewrite zget_zadd.
+      destruct (decide (d = d')) as [->|Hne].
+      * rewrite Pos.eqb_refl. lia.
+      * destruct (Pos.eqb_spec d d'); [contradiction|]. lia.
+    + split; [|split]; simpl; [exact Hd|exact Hb|].
+      intros k l. unfold mat_at. destruct (decide (k = h)) as [->|Hne].
+      * rewrite lookup_insert. intros El. inversion El; subst. apply Forall_app. split.
+        -- destruct (mat s !! h) as [l0|] eqn:E0; simpl; [eapply Hm; exact E0|constructor].
+        -- constructor; [simpl; lia|constructor].
+      * rewrite lookup_insert_ne by (intros Heq; apply Hne; symmetry; exact Heq). apply Hm.
+    + intros d'. simpl. rewrite !zget_zadd. destruct (HB d') as [B1 B2]. destruct (decide (d = d')) as [->|]; split; lia.
+Qed.
+
+Lemma inv_run os : forall s, forallb gen_nonneg os = true -> inv s -> inv (run s os).
+Proof.
+  induction os as [|o os IH]; intros s Hg Hs; simpl in *; [exact Hs|].
+  apply andb_true_iff in Hg as [H1 H2]. apply IH; [exact H2|]. apply inv_step; assumption.
+Qed.
+
+(* for every history (any interleaving, any environment inputs, any verdicts) over a genesis with
+   non-negative amounts: what a delegator has withdrawn never exceeds what it staked minus the
+   penalties, in whole OLT and on the balance side in base units; and the difference is exactly
+   what is still locked, withdrawable or maturing (each unit is in exactly one place) *)
+Theorem withdraw_bounded os :
+  forallb gen_nonneg os = true ->
+  let s := run empty_state os in
+  forall d,
+    zget (g_withdrawn s) d <= zget (g_staked s) d - zget (g_pen s) d /\
+    zget (g_out s) d <= zget (g_in s) d - zget (g_pen s) d * base /\
+    zget (g_staked s) d - zget (g_pen s) d - zget (g_withdrawn s) d
+      = zget (deff s) d + zget (dbnd s) d + maturing s d /\
+    0 <= zget (deff s) d /\ 0 <= zget (dbnd s) d /\ 0 <= maturing s d.
+Proof.
+  intros Hg s d. destruct (inv_run os empty_state Hg inv_empty) as (HC & HN & HB). fold s in HC, HN, HB.
+  pose proof (maturing_nonneg s d HN) as Hm. destruct HN as (Hd & Hb & _).
+  specialize (HC d). specialize (Hd d). specialize (Hb d). destruct (HB d) as [B1 B2].
+  assert (0 < base) by (unfold base; lia).
+  repeat split; try lia; rewrite B1, B2; nia.
 Qed.
